@@ -125,6 +125,8 @@ func c14Layouts(tier string, f func(n int, feats []Feat)) (nodes int) {
 	gaps := []int{-2, -1, 0, 1, 2, 3} // negative = the second segment starts inside the first (ribosomal slippage style)
 	if tier == "quick" {
 		gaps = []int{-2, -1, 0, 1, 3}
+	} else {
+		codingLens = []int{6, 9, 12}
 	}
 	one := func(name string, o, coding, cs int, split, gap int, rev bool, style int) (Feat, int) {
 		total := coding + cs - 1
@@ -403,14 +405,14 @@ func init() {
 	register(&Prop{
 		ID:    "C14",
 		Level: "model_checking",
-		Rule: "bounded-exhaustive differential between the GenBank and GFF3 front-ends of the real code: every layout of one gene with coding length 6 or 9, codon_start 1..3 (GFF phase 0..2), start offset 1..3, either strand, unsplit or split into two segments at every base with an intron of 1..3 bases (reverse joins in both GenBank spellings), plus a second gene downstream (either strand, codon_start 1..2, unsplit or split) and in-frame nested gene pairs sharing a stop codon; the genome is built so that every gene is sense codons + stop. Each layout is rendered as a GenBank flat file and as GFF3 (rows sharing an ID in ascending order, continuation rows carrying the phase the GFF3 specification prescribes, ##FASTA) and run through `variants` and `sam variants` on every single substitution over ACGT, four deletions, the unchanged genome and one 2-base insertion; the per-sequence multisets of records must be equal. " +
+		Rule: "bounded-exhaustive differential between the GenBank and GFF3 front-ends of the real code: every layout of one gene with coding length 6 or 9 (thorough also 12), codon_start 1..3 (GFF phase 0..2), start offset 1..3, either strand, unsplit or split into two segments at every base with an intron of 1..3 bases (reverse joins in both GenBank spellings), plus a second gene downstream (either strand, codon_start 1..2, unsplit or split) and in-frame nested gene pairs sharing a stop codon; the genome is built so that every gene is sense codons + stop. Each layout is rendered as a GenBank flat file and as GFF3 (rows sharing an ID in ascending order, continuation rows carrying the phase the GFF3 specification prescribes, ##FASTA) and run through `variants` and `sam variants` on every single substitution over ACGT, four deletions, the unchanged genome and one 2-base insertion; the per-sequence multisets of records must be equal. " +
 			"A case is one (layout, command, query); non-trivial = a non-empty mutation list; each generated once",
 		Assumptions: []string{
 			"'expressible in both formats': the leading partial codon (codon_start-1 bases) lies inside the first coding segment; GFF rows of one ID in ascending genomic order, one strand per ID (gofasta's GFF reader refuses mixed strands), forward-strand rows in coding order (ascending, or origin-spanning with the first coding segment downstream), reverse-strand rows ascending, every gene ending in a stop codon (the GenBank /translation omits it and gofasta appends '*')",
 			"records sharing a position are compared as a multiset (order among them not judged)",
 		},
 		Bounds: func(tier string) map[string]interface{} {
-			return map[string]interface{}{"coding_lengths": []int{6, 9}, "codon_start": []int{1, 2, 3}, "offsets": []int{1, 2, 3}, "intron_lengths": map[string][]int{"quick": {1, 3}, "thorough": {1, 2, 3}}[tier]}
+			return map[string]interface{}{"coding_lengths": map[string][]int{"quick": {6, 9}, "thorough": {6, 9, 12}}[tier], "codon_start": []int{1, 2, 3}, "offsets": []int{1, 2, 3}, "intron_lengths": map[string][]int{"quick": {1, 3}, "thorough": {1, 2, 3}}[tier]}
 		},
 		Plan: func(tier string) ([]string, *engine.JobResult) {
 			var jobs []string
